@@ -23,7 +23,8 @@ func c13History(r *core.Run, depth int) {
 		wantS string
 		wantB []byte
 	}
-	inputs := [][]byte{{1, 2, 3, 4, 5}, {9, 8, 7, 6, 5}, {0xff, 0, 0xff, 0, 0xff, 0, 0x7f}, refmodel.Fill("c13h", 1, 640)}
+	// the 32-byte input is the I2P case that matters most: a hash, whose unpadded base32 is the 52-character address label
+	inputs := [][]byte{{1, 2, 3, 4, 5}, {9, 8, 7, 6, 5}, {0xff, 0, 0xff, 0, 0xff, 0, 0x7f}, refmodel.Fill("c13h32", 1, 32), refmodel.Fill("c13h", 1, 640)}
 	var ops []op
 	for _, x := range inputs {
 		x := x
@@ -36,7 +37,7 @@ func c13History(r *core.Run, depth int) {
 			op{"base64.EncodeToStringSafe", func() (string, []byte) { s, _ := base64.EncodeToStringSafe(x); return s, nil }, e64, nil},
 		)
 	}
-	for _, x := range inputs[:3] {
+	for _, x := range inputs[:4] {
 		x := x
 		e32, e32n, e64 := refmodel.B32Encode(x, true), refmodel.B32Encode(x, false), refmodel.B64Encode(x)
 		ops = append(ops,
@@ -47,10 +48,15 @@ func c13History(r *core.Run, depth int) {
 			op{"base64.DecodeStringSafe", func() (string, []byte) { b, _ := base64.DecodeStringSafe(e64); return "", b }, "", x},
 		)
 	}
+	// one more operation: the caller overwrites every byte slice it was handed so far (they are its own);
+	// a later decode of the same text must still return the reference bytes
+	scribble := len(ops)
+	ops = append(ops, op{name: "caller-overwrites-its-results"})
 	type held struct {
-		op int
-		s  string
-		b  []byte
+		op   int
+		s    string
+		b    []byte
+		gone bool
 	}
 	var seqs int64
 	first := make([]int, len(ops))
@@ -64,9 +70,21 @@ func c13History(r *core.Run, depth int) {
 			counts[f]++
 			var hs []held
 			for step, oi := range seq {
+				if oi == scribble {
+					for k := range hs {
+						for i := range hs[k].b {
+							hs[k].b[i] ^= 0xA5
+						}
+						hs[k].gone = hs[k].gone || hs[k].b != nil
+					}
+					continue
+				}
 				s, b := ops[oi].run()
-				hs = append(hs, held{oi, s, b})
+				hs = append(hs, held{oi, s, b, false})
 				for hi, h := range hs {
+					if h.gone {
+						continue
+					}
 					o := ops[h.op]
 					if h.s != o.wantS || !bytes.Equal(h.b, o.wantB) {
 						names := make([]string, len(seq))
@@ -74,7 +92,7 @@ func c13History(r *core.Run, depth int) {
 							names[i] = ops[x].name
 						}
 						cl := "result-differs-from-reference"
-						if hi < step {
+						if hi < len(hs)-1 {
 							cl = "earlier-result-changed-by-a-later-call"
 						}
 						r.Violate("C13|history|"+cl+"|"+o.name, fmt.Sprintf("sequence %v: after step %d the result of step %d (%s) is %q / %x, reference %q / %x", names, step, hi, o.name, h.s, h.b, o.wantS, o.wantB),
